@@ -267,3 +267,54 @@ def run_programs(cfg, programs, after_read=False, limit_ms=20000, tag="prog"):
         os.remove(inp)
         os.remove(outp)
     return res
+
+
+# ---- generic Fourier-Motzkin (small systems) ---------------------------------------------------------------
+def fm_feasible_n(rows, nvars):
+    """rows: (coeffs tuple of length nvars, bound, strict) meaning sum c_i v_i <= bound (or <)."""
+    rows = [(tuple(F(c) for c in r[0]), F(r[1]), bool(r[2])) for r in rows]
+    for var in range(nvars):
+        pos = [r for r in rows if r[0][var] > 0]
+        neg = [r for r in rows if r[0][var] < 0]
+        rest = [r for r in rows if r[0][var] == 0]
+        for p in pos:
+            for q in neg:
+                fp, fq = 1 / p[0][var], 1 / -q[0][var]
+                rest.append((tuple(a * fp + b * fq for a, b in zip(p[0], q[0])), p[1] * fp + q[1] * fq, p[2] or q[2]))
+        # drop duplicates to keep the system small
+        rows = list({(r[0], r[1], r[2]) for r in rest})
+    for c, b, s in rows:
+        if b < 0 or (s and b <= 0):
+            return False
+    return True
+
+
+# ---- solution access ----------------------------------------------------------------------------------------
+class Solution:
+    def __init__(self, res):
+        self.res = res
+        sol = res.get("solution") or {}
+        self.sol = sol
+        self.env = env_of(sol.get("exprs", []))
+        self.items = {it["id"]: it for it in sol.get("items", [])}
+        self.atoms = {}
+        for a in sol.get("atoms", []):
+            self.atoms[a["id"]] = {"id": a["id"], "pred": a["predicate"], "state": a["state"], "pars": env_of(a.get("pars", []))}
+        self.causal = {a["id"]: a for a in (res.get("atoms") or [])}
+        self.names = {}
+        for k, v in self.env.items():
+            if isinstance(v, tuple) and v and v[0] == "obj":
+                self.names.setdefault(v[1], k)
+
+    def name(self, oid):
+        return self.names.get(oid, "#%s" % oid)
+
+    def atom_named(self, name):
+        v = self.env.get(name)
+        if isinstance(v, tuple) and v[0] == "obj":
+            return self.atoms.get(v[1])
+        return None
+
+    def item_fields(self, oid):
+        it = self.items.get(oid)
+        return env_of(it.get("exprs", [])) if it else {}
